@@ -7,7 +7,7 @@ from concurrent.futures import ThreadPoolExecutor
 
 V = '/verif'
 EXTRA = {'REVERT-C12c': ['C02'], 'C01-Q': ['C07'], 'C03-H': ['C05'], 'C20-H': ['C03'], 'C01-B': ['C08'], 'C03-A': ['C07'], 'C09-B': ['C07'], 'C13-B': ['C08'], 'C20-B': ['C08'],
-         'C17-A': ['C07', 'C09']}
+         'C17-A': ['C07', 'C09'], 'C14-U': ['C09'], 'C15-U': ['C09']}
 
 
 def sh(cmd, **kw):
